@@ -200,6 +200,24 @@ class Sym:
                         if lo != 0 or n != nbytes * 8:
                             s += "[%d..%d]" % (lo, lo + n)
                         return s
+        # concatenation of whole fields (e.g. MSW || LSW)
+        parts = []
+        pos = 0
+        while pos < n:
+            done = False
+            for size in (64, 32, 16, 8):
+                if pos + size <= n and size < n:
+                    nm = self.bv_name(BV(bits[pos:pos + size]))
+                    if nm and not nm.startswith("sel{") and not nm.startswith("cat(") and "[" not in nm:
+                        parts.append(nm)
+                        pos += size
+                        done = True
+                        break
+            if not done:
+                parts = None
+                break
+        if parts and len(parts) > 1:
+            return "cat(%s)" % ",".join(reversed(parts))
         return "sel{%s}" % ",".join("%d<-%s.%d" % (i, fmt_lin((b[1], b[2])), b[3]) for i, b in ins)
 
     def region_name(self, r):
